@@ -4,9 +4,9 @@ package pathdb
 
 // C19 — the history index of one state element behaves as a sorted set of state ids.
 //
-// Three harnesses share this file:
+// Two harnesses share this file:
 //
-//   TestVerif_C19_ScaledPlain / TestVerif_C19_ScaledExt
+//   TestVerif_C19_Scaled
 //       explicit-state breadth-first search over *histories* of index sessions (writer sessions that append,
 //       deleter sessions that pop, tail pruning, crash-recovery sessions opened with a truncating limit) on a build in
 //       which indexBlockRestartLen / indexBlockMaxSize are scaled down (run.py "instrument"/"consts"), so that
@@ -100,12 +100,11 @@ func c19Filtered(m []c19Elem, f *uint16) []uint64 {
 	return out
 }
 
-// c19GT returns the least id > q in ids (ascending) and whether it exists, by linear scan.
+// c19GT returns the least id > q in the ascending slice ids, its position and whether it exists.
 func c19GT(ids []uint64, q uint64) (uint64, int, bool) {
-	for i, x := range ids {
-		if x > q {
-			return x, i, true
-		}
+	i := sort.Search(len(ids), func(i int) bool { return ids[i] > q })
+	if i < len(ids) {
+		return ids[i], i, true
 	}
 	return 0, len(ids), false
 }
@@ -259,13 +258,19 @@ func c19Layout(db *memorydb.Database, ident stateIdent, bitmap int) ([]c19Block,
 				return nil, fmt.Errorf("block %d: restart section %d holds %d elements (interval %d)", b.id, i, n, indexBlockRestartLen)
 			}
 		}
-		// every extension id must be announced by the block bitmap, otherwise the block is skipped by filters
+		// every extension id must be announced by the block bitmap, otherwise the block is skipped by filters; and
+		// no other bit may be set: indexIterator.Next gives up when a block announced by its bitmap yields no match,
+		// so a stale bit hides the matching elements of all later blocks.
+		want := make([]byte, len(b.bitmap))
 		for _, e := range elems {
 			for _, x := range e.ext {
-				if x != 0 && b.bitmap[(x-1)/8]&(1<<(7-(x-1)%8)) == 0 {
-					return nil, fmt.Errorf("block %d: extension id %d of element %d is not set in the descriptor bitmap %x", b.id, x, e.id, b.bitmap)
+				if x != 0 {
+					want[(x-1)/8] |= 1 << (7 - (x-1)%8)
 				}
 			}
+		}
+		if !bytes.Equal(want, b.bitmap) {
+			return nil, fmt.Errorf("block %d: descriptor bitmap is %x, the extensions of its elements give %x", b.id, b.bitmap, want)
 		}
 		blocks = append(blocks, b)
 	}
@@ -320,7 +325,7 @@ var (
 	c19H2 = common.HexToHash("0xa1a1a1a1a1a1a1a1a1a1a1a1a1a1a1a1a1a1a1a1a1a1a1a1a1a1a1a1a1a1a1a2")
 )
 
-const c19ByBase = uint64(1) << 40 // bystander ids are far above every explored id / prune tail
+const c19ByBase = uint64(1) << 62 // bystander ids are far above every explored id / prune tail
 
 func c19CfgPlain() *c19Cfg {
 	return &c19Cfg{
@@ -335,7 +340,7 @@ func c19CfgPlain() *c19Cfg {
 			{"A1w", []uint64{200}, nil},
 			{"A1x", []uint64{20000}, nil},
 			{"A3", []uint64{1, 1, 1}, nil},
-			{"A3w", []uint64{200, 1, 200}, nil},
+			{"A3x", []uint64{20000, 1, 20000}, nil},
 		},
 	}
 }
@@ -458,8 +463,13 @@ func c19Restore(snap []c19KV) *memorydb.Database {
 
 func c19SnapKey(snap []c19KV) string {
 	var sb strings.Builder
+	var l [8]byte
 	for _, kv := range snap {
-		sb.WriteString(fmt.Sprintf("%x=%x;", kv.k, kv.v))
+		binary.BigEndian.PutUint32(l[:4], uint32(len(kv.k)))
+		binary.BigEndian.PutUint32(l[4:], uint32(len(kv.v)))
+		sb.Write(l[:])
+		sb.Write(kv.k)
+		sb.Write(kv.v)
 	}
 	return sb.String()
 }
@@ -615,15 +625,13 @@ func c19Apply(cfg *c19Cfg, db *memorydb.Database, model []c19Elem, op c19Op, che
 			next = append(next, b.elems...)
 		}
 		// statement level: nothing at or above the tail may be lost (independent of the block partition)
+		kept := map[uint64]bool{}
+		for _, x := range next {
+			kept[x.id] = true
+		}
 		for _, e := range model {
-			if e.id >= op.Tail {
-				found := false
-				for _, x := range next {
-					found = found || x.id == e.id
-				}
-				if !found {
-					return nil, fmt.Errorf("harness: expectation drops id %d >= tail %d", e.id, op.Tail)
-				}
+			if e.id >= op.Tail && !kept[e.id] {
+				return nil, fmt.Errorf("harness: expectation drops id %d >= tail %d", e.id, op.Tail)
 			}
 		}
 		return next, nil
@@ -642,7 +650,10 @@ func (op c19Op) Exts0() []uint16 {
 // ---------------------------------------------------------------------------------------------------------------
 // state validation through the real readers
 
-func c19Queries(ids []uint64) []uint64 {
+// c19Marks holds the element positions of interest of the unscaled grid (nil in the scaled search).
+// For indexes longer than 64 elements only positions next to a restart-section boundary, next to a mark and at
+// both ends are queried; short indexes are queried at every id-1, id, id+1.
+func c19Queries(ids []uint64, marks ...int) []uint64 {
 	seen := map[uint64]bool{}
 	var out []uint64
 	add := func(q uint64) {
@@ -652,7 +663,19 @@ func c19Queries(ids []uint64) []uint64 {
 		}
 	}
 	add(0)
-	for _, x := range ids {
+	near := map[int]bool{}
+	for _, m := range marks {
+		for j := m - 3; j <= m+2; j++ {
+			near[j] = true
+		}
+	}
+	for j, x := range ids {
+		if len(ids) > 64 {
+			k := j % indexBlockRestartLen
+			if !(k <= 1 || k >= indexBlockRestartLen-2 || near[j] || j < 3 || j >= len(ids)-3) {
+				continue
+			}
+		}
 		add(x - 1)
 		add(x)
 		add(x + 1)
@@ -694,9 +717,9 @@ func c19EqualIDs(a, b []uint64) bool {
 
 // c19CheckReader validates one indexReader against the model. seekAll: run SeekGT+tail traversal for every query
 // (quadratic); otherwise only for the given subset.
-func c19CheckReader(cfg *c19Cfg, rd *indexReader, model []c19Elem, what string, full bool, seekAt []uint64) error {
+func c19CheckReader(cfg *c19Cfg, rd *indexReader, model []c19Elem, what string, full bool, seekAt []uint64, marks ...int) error {
 	ids := c19IDs(model)
-	qs := c19Queries(ids)
+	qs := c19Queries(ids, marks...)
 	seekQs := seekAt
 	if full {
 		seekQs = qs
@@ -752,12 +775,23 @@ func c19CheckReader(cfg *c19Cfg, rd *indexReader, model []c19Elem, what string, 
 			if it.ID() != want[idx] {
 				return fmt.Errorf("%s: SeekGT(%d) filter=%s positioned at %d, expected %d (matching ids %v)", what, q, fname, it.ID(), want[idx], want)
 			}
-			rest, err := c19Drain(it, len(ids)+2)
+			wantRest := want[idx+1:]
+			var rest []uint64
+			if full || len(wantRest) <= 2*indexBlockRestartLen+8 {
+				rest, err = c19Drain(it, len(ids)+2)
+			} else {
+				// long tails (unscaled grid): follow the iterator across the next two restart boundaries only
+				wantRest = wantRest[:2*indexBlockRestartLen+8]
+				for len(rest) < len(wantRest) && it.Next() {
+					rest = append(rest, it.ID())
+				}
+				err = it.Error()
+			}
 			if err != nil {
 				return fmt.Errorf("%s: Next after SeekGT(%d) filter=%s: %v", what, q, fname, err)
 			}
-			if !c19EqualIDs(rest, want[idx+1:]) {
-				return fmt.Errorf("%s: Next() after SeekGT(%d) filter=%s yields %v, expected %v (matching ids %v)", what, q, fname, rest, want[idx+1:], want)
+			if !c19EqualIDs(rest, wantRest) {
+				return fmt.Errorf("%s: Next() after SeekGT(%d) filter=%s yields %v, expected %v (matching ids %v)", what, q, fname, rest, wantRest, want)
 			}
 		}
 		// one iterator re-used for a descending and then an ascending series of seeks
@@ -782,7 +816,7 @@ func c19CheckReader(cfg *c19Cfg, rd *indexReader, model []c19Elem, what string, 
 }
 
 // c19Check validates the persisted state against the model.
-func c19Check(cfg *c19Cfg, db *memorydb.Database, model []c19Elem, full bool, seekAt []uint64) ([]c19Block, error) {
+func c19Check(cfg *c19Cfg, db *memorydb.Database, model []c19Elem, full bool, seekAt []uint64, marks ...int) ([]c19Block, error) {
 	blocks, err := c19Layout(db, cfg.ident, cfg.bitmap)
 	if err != nil {
 		return nil, fmt.Errorf("persisted index is malformed: %v (model %v)", err, c19IDs(model))
@@ -794,7 +828,7 @@ func c19Check(cfg *c19Cfg, db *memorydb.Database, model []c19Elem, full bool, se
 	if err != nil {
 		return nil, fmt.Errorf("newIndexReader: %v", err)
 	}
-	if err := c19CheckReader(cfg, rd, model, "reader", full, seekAt); err != nil {
+	if err := c19CheckReader(cfg, rd, model, "reader", full, seekAt, marks...); err != nil {
 		return nil, err
 	}
 	// block level readers
@@ -804,7 +838,7 @@ func c19Check(cfg *c19Cfg, db *memorydb.Database, model []c19Elem, full bool, se
 			return nil, fmt.Errorf("newBlockReader(block %d): %v", b.id, err)
 		}
 		ids := c19IDs(b.elems)
-		for _, q := range c19Queries(ids) {
+		for _, q := range c19Queries(ids, len(ids)) {
 			got, err := br.readGreaterThan(q)
 			if err != nil {
 				return nil, fmt.Errorf("block %d readGreaterThan(%d): %v", b.id, q, err)
@@ -858,7 +892,6 @@ type c19CorruptDesc struct {
 }
 
 func c19ReadCorrupted(cfg *c19Cfg, db *memorydb.Database, model []c19Elem, blocks []c19Block, blk, off int, val byte) (string, error) {
-	ids := c19IDs(model)
 	if blk >= 0 {
 		raw := common.CopyBytes(blocks[blk].raw)
 		raw[off] = val
@@ -867,9 +900,11 @@ func c19ReadCorrupted(cfg *c19Cfg, db *memorydb.Database, model []c19Elem, block
 			return "rejected", nil
 		}
 		filters := []*extFilter{nil}
-		for _, f := range cfg.filters {
-			x := extFilter(f)
-			filters = append(filters, &x)
+		for i, f := range cfg.filters {
+			if i == 1 || i == len(cfg.filters)-1 || c19CorruptAll {
+				x := extFilter(f)
+				filters = append(filters, &x)
+			}
 		}
 		errs := 0
 		for _, f := range filters {
@@ -905,17 +940,22 @@ func c19ReadCorrupted(cfg *c19Cfg, db *memorydb.Database, model []c19Elem, block
 		}
 		return "read-silently", nil
 	}
-	// metadata corruption: read through the index reader of a private copy
-	cp := c19Restore(c19Snapshot(db))
-	meta := common.CopyBytes(readStateIndex(cfg.ident, cp))
+	// metadata corruption: read through the index reader; db is a private copy, the original blob is restored
+	orig := readStateIndex(cfg.ident, db)
+	meta := common.CopyBytes(orig)
 	meta[off] = val
-	writeStateIndex(cfg.ident, cp, meta)
-	rd, err := newIndexReader(cp, cfg.ident, cfg.bitmap)
+	writeStateIndex(cfg.ident, db, meta)
+	defer writeStateIndex(cfg.ident, db, orig)
+	rd, err := newIndexReader(db, cfg.ident, cfg.bitmap)
 	if err != nil {
 		return "rejected", nil
 	}
 	errs := 0
-	for _, q := range c19Queries(ids) {
+	qs := []uint64{0}
+	for _, b := range blocks {
+		qs = append(qs, b.elems[0].id-1, b.elems[len(b.elems)-1].id-1, b.elems[len(b.elems)-1].id)
+	}
+	for _, q := range qs {
 		if _, err := rd.readGreaterThan(q); err != nil {
 			errs++
 		}
@@ -1070,15 +1110,19 @@ func c19Enabled(cfg *c19Cfg, st *c19State, blocks []c19Block, maxPrunes, maxLimi
 }
 
 func c19Explore(r *mc.R, cfg *c19Cfg, depth, maxPrunes, maxLimits int, corrupt bool) {
+	type cand struct {
+		h    uint64
+		st   *c19State
+		desc c19Desc
+	}
 	init := &c19State{snap: c19Snapshot(cfg.newDB())}
 	seen := map[uint64]struct{}{}
-	var smu sync.Mutex
 	seen[mc.Hash64(c19SnapKey(init.snap))] = struct{}{}
 	r.State(1)
 	frontier := []*c19State{init}
 	completed := 0
 	for d := 1; d <= depth && len(frontier) > 0; d++ {
-		var next []*c19State
+		var cands []cand
 		var nmu sync.Mutex
 		done := r.Parallel(len(frontier), func(i int) {
 			st := frontier[i]
@@ -1088,6 +1132,7 @@ func c19Explore(r *mc.R, cfg *c19Cfg, depth, maxPrunes, maxLimits int, corrupt b
 				r.Violation(cfg.name+":layout", err.Error(), c19Desc{cfg.name, st.path})
 				return
 			}
+			var local []cand
 			for _, op := range c19Enabled(cfg, st, blocks, maxPrunes, maxLimits) {
 				if r.Expired() {
 					return
@@ -1118,45 +1163,57 @@ func c19Explore(r *mc.R, cfg *c19Cfg, depth, maxPrunes, maxLimits int, corrupt b
 					continue
 				}
 				c19Outcome(r, op, blocks, after)
-				snap := c19Snapshot(db)
-				h := mc.Hash64(c19SnapKey(snap))
-				smu.Lock()
-				_, dup := seen[h]
-				if !dup {
-					seen[h] = struct{}{}
-				}
-				smu.Unlock()
-				if dup {
-					continue
-				}
-				r.State(1)
-				r.DistinctHash(h)
-				ns := &c19State{snap: snap, model: model, path: path, prunes: st.prunes, limits: st.limits}
+				ns := &c19State{snap: c19Snapshot(db), model: model, path: path, prunes: st.prunes, limits: st.limits}
 				if op.Kind == "P" {
 					ns.prunes++
 				}
 				if op.Trunc {
 					ns.limits++
 				}
-				if corrupt {
-					c19CorruptSweep(r, cfg, db, model, after, path)
-				}
-				if h%1499 == 0 {
-					r.Sample(desc)
-				}
-				if d < depth {
-					nmu.Lock()
-					next = append(next, ns)
-					nmu.Unlock()
-				}
+				// the key is the complete database content plus the two history counters that gate the alphabet
+				h := mc.Hash64(fmt.Sprintf("%d/%d/%s", ns.prunes, ns.limits, c19SnapKey(ns.snap)))
+				local = append(local, cand{h, ns, desc})
 			}
+			nmu.Lock()
+			cands = append(cands, local...)
+			nmu.Unlock()
 		})
 		if done < len(frontier) || r.Expired() {
 			break
 		}
 		completed = d
-		sort.Slice(next, func(a, b int) bool { return c19PathLess(next[a].path, next[b].path) })
-		frontier = next
+		// deterministic de-duplication: shortest / lexicographically first path wins, independent of scheduling
+		sort.Slice(cands, func(a, b int) bool { return c19PathLess(cands[a].st.path, cands[b].st.path) })
+		var fresh []cand
+		for _, c := range cands {
+			if _, dup := seen[c.h]; dup {
+				continue
+			}
+			seen[c.h] = struct{}{}
+			fresh = append(fresh, c)
+			r.State(1)
+			r.DistinctHash(c.h)
+			if c.h%1499 == 0 {
+				r.Sample(c.desc)
+			}
+		}
+		if corrupt {
+			r.Parallel(len(fresh), func(i int) {
+				st := fresh[i].st
+				db := c19Restore(st.snap)
+				blocks, err := c19Layout(db, cfg.ident, cfg.bitmap)
+				if err != nil {
+					return // already reported by the transition check
+				}
+				c19CorruptSweep(r, cfg, db, st.model, blocks, st.path)
+			})
+		}
+		frontier = frontier[:0]
+		if d < depth {
+			for _, c := range fresh {
+				frontier = append(frontier, c.st)
+			}
+		}
 	}
 	r.Bound(cfg.name+".depth_completed", completed)
 	r.Bound(cfg.name+".depth_requested", depth)
@@ -1167,9 +1224,30 @@ func c19Explore(r *mc.R, cfg *c19Cfg, depth, maxPrunes, maxLimits int, corrupt b
 }
 
 func c19PathLess(a, b []c19Op) bool {
-	ja, _ := json.Marshal(a)
-	jb, _ := json.Marshal(b)
-	return bytes.Compare(ja, jb) < 0
+	for i := 0; i < len(a) && i < len(b); i++ {
+		if c := bytes.Compare(c19OpKey(a[i]), c19OpKey(b[i])); c != 0 {
+			return c < 0
+		}
+	}
+	return len(a) < len(b)
+}
+
+func c19OpKey(op c19Op) []byte {
+	var b []byte
+	b = append(b, op.Kind...)
+	b = binary.BigEndian.AppendUint64(b, op.Limit)
+	b = binary.BigEndian.AppendUint64(b, uint64(op.Pops))
+	b = binary.BigEndian.AppendUint64(b, op.Tail)
+	for i, id := range op.IDs {
+		b = binary.BigEndian.AppendUint64(b, id)
+		if op.Exts != nil {
+			for _, x := range op.Exts[i] {
+				b = binary.BigEndian.AppendUint16(b, x)
+			}
+			b = append(b, 0xff, 0xff)
+		}
+	}
+	return b
 }
 
 func c19Outcome(r *mc.R, op c19Op, before, after []c19Block) {
@@ -1272,7 +1350,7 @@ func c19ScaledRule(r *mc.R) {
 		"single-byte corruption (quick: ^80,+1,ff; thorough: 00,ff,+1,-1,^80,^01) of every distinct block / metadata blob read without panic")
 }
 
-func TestVerif_C19_ScaledPlain(t *testing.T) {
+func TestVerif_C19_Scaled(t *testing.T) {
 	mc.Run(t, "C19", func(r *mc.R) {
 		if indexBlockRestartLen > 8 || indexBlockMaxSize > 64 {
 			t.Fatalf("this harness needs the scaled constants (run through run.py), got %d/%d", indexBlockRestartLen, indexBlockMaxSize)
@@ -1283,24 +1361,304 @@ func TestVerif_C19_ScaledPlain(t *testing.T) {
 		if c19Replay(r, t) {
 			return
 		}
-		depth := mc.Pick(r, 5, 7)
-		c19Explore(r, c19CfgPlain(), depth, 1, 1, true)
+		c19Explore(r, c19CfgPlain(), mc.Pick(r, 5, 7), 1, 1, true)
+		c19Explore(r, c19CfgTn2(), mc.Pick(r, 4, 6), 1, 1, true)
+		c19Explore(r, c19CfgTn34(), mc.Pick(r, 4, 6), 1, 1, true)
 	})
 }
 
-func TestVerif_C19_ScaledExt(t *testing.T) {
+// ---------------------------------------------------------------------------------------------------------------
+// unscaled boundary grid
+
+type c19Profile struct {
+	name string
+	cfg  *c19Cfg
+	gap  uint64
+	ext  func(i int) []uint16
+	maxN int // number of elements used to measure the block capacities
+}
+
+func c19Profiles() []*c19Profile {
+	tn34 := c19CfgTn34()
+	tn34.filters = []uint16{1, 16, 17, 272, 3}
+	tn2 := c19CfgTn2()
+	tn2.filters = []uint16{0, 1, 3, 16}
+	return []*c19Profile{
+		{"plain-1B", c19CfgPlain(), 1, nil, 4400},
+		{"plain-8B", c19CfgPlain(), 1 << 49, nil, 1300},
+		{"ext34-2B", tn34, 130, func(i int) []uint16 {
+			// bands of 300 elements use different node ids, so that block bitmaps differ; every 7th touches two nodes
+			if i%7 == 0 {
+				return []uint16{2, 40}
+			}
+			return [][]uint16{{1}, {272}, {17}, {16}}[(i/300)%4]
+		}, 2300},
+		{"ext2-1B", tn2, 1, func(i int) []uint16 {
+			if i%5 == 0 {
+				return []uint16{0}
+			}
+			return []uint16{uint16(1 + (i/500)%16)}
+		}, 3000},
+	}
+}
+
+func (p *c19Profile) elem(i int) c19Elem {
+	e := c19Elem{id: uint64(i+1) * p.gap}
+	if p.ext != nil {
+		e.ext = c19SortedExt(p.ext(i))
+	}
+	return e
+}
+
+// c19Build appends elements [0,n) in two writer sessions split at `split` (0 = one session).
+func c19Build(p *c19Profile, n, split int) (*memorydb.Database, []c19Elem, error) {
+	db := p.cfg.newDB()
+	var model []c19Elem
+	for _, rng := range [][2]int{{0, split}, {split, n}} {
+		if rng[0] == rng[1] {
+			continue
+		}
+		op := c19Op{Kind: "W", Limit: c19Last(model)}
+		for i := rng[0]; i < rng[1]; i++ {
+			e := p.elem(i)
+			op.IDs = append(op.IDs, e.id)
+			if p.ext != nil {
+				op.Exts = append(op.Exts, e.ext)
+			}
+		}
+		m, err := c19Apply(p.cfg, db, model, op, false)
+		if err != nil {
+			return nil, nil, err
+		}
+		model = m
+	}
+	return db, model, nil
+}
+
+type c19GridCase struct {
+	Profile string `json:"profile"`
+	N       int    `json:"n"`
+	Split   int    `json:"split,omitempty"`
+	Op      string `json:"op"`
+	Keep    int    `json:"keep,omitempty"`
+	Tail    uint64 `json:"tail,omitempty"`
+	Limit   uint64 `json:"limit,omitempty"`
+}
+
+// c19SeekAt picks the queries for the SeekGT+tail traversals: around every grid position.
+func c19SeekAt(model []c19Elem, marks []int) []uint64 {
+	var out []uint64
+	for _, m := range marks {
+		for _, j := range []int{m - 2, m - 1, m} {
+			if j >= 0 && j < len(model) {
+				out = append(out, model[j].id-1, model[j].id)
+			}
+		}
+	}
+	return out
+}
+
+func TestVerif_C19_Unscaled(t *testing.T) {
 	mc.Run(t, "C19", func(r *mc.R) {
-		if indexBlockRestartLen > 8 || indexBlockMaxSize > 64 {
-			t.Fatalf("this harness needs the scaled constants (run through run.py), got %d/%d", indexBlockRestartLen, indexBlockMaxSize)
+		if indexBlockRestartLen != 256 || indexBlockMaxSize != 4096 {
+			// the grid below is built around the shipped constants; other values are still handled (capacities are measured)
+			r.Bound("note", "constants differ from 256/4096")
 		}
 		c19Common(r)
-		c19ScaledRule(r)
-		c19CorruptAll = r.Thorough()
-		if c19Replay(r, t) {
-			return
+		r.Rule("unscaled constants; per profile (1-byte / 8-byte varint deltas without extension, 34-byte and 2-byte bitmap extensions) the grid " +
+			"N = {1,2,R-1,R,R+1,2R,2R+1,B1-1,B1,B1+1,B1+R,B1+R+1,B2,B2+1} (R restart interval, B1/B2 measured cumulative block capacities; B2 omitted for 1-byte deltas and, in the quick tier, for block capacities above 600): " +
+			"build n in N with a session split at every s in N; pop down to every m in N u {0} in one deleter session then re-append 2; prune at " +
+			"{first, each block max-1, max, max+1, last+1} then pop 1; truncating writer limit at every element position in N; full validation after each step")
+		for _, p := range c19Profiles() {
+			if r.Expired() {
+				break
+			}
+			// measure the block capacities on the real code (input selection only)
+			db, _, err := c19Build(p, p.maxN, 0)
+			if err != nil {
+				r.Violation(p.name+":measure", err.Error(), nil)
+				continue
+			}
+			blocks, err := c19Layout(db, p.cfg.ident, p.cfg.bitmap)
+			if err != nil || len(blocks) < 2 {
+				r.Violation(p.name+":measure", fmt.Sprintf("cannot measure block capacities: %v (%d blocks)", err, len(blocks)), nil)
+				continue
+			}
+			b1 := len(blocks[0].elems)
+			b2 := p.maxN + 1 // beyond the grid unless a third block exists (then block 1 is complete)
+			if len(blocks) >= 3 && (r.Thorough() || b1 < 600) {
+				b2 = b1 + len(blocks[1].elems)
+			}
+			r.Bound(p.name+".block_capacities", []int{b1, b2 - b1})
+			R := indexBlockRestartLen
+			set := map[int]bool{}
+			for _, n := range []int{1, 2, R - 1, R, R + 1, 2 * R, 2*R + 1, b1 - 1, b1, b1 + 1, b1 + R, b1 + R + 1, b2, b2 + 1} {
+				if n >= 1 && n <= p.maxN {
+					set[n] = true
+				}
+			}
+			var grid []int
+			for n := range set {
+				grid = append(grid, n)
+			}
+			sort.Ints(grid)
+			r.Bound(p.name+".grid", grid)
+
+			var cases []c19GridCase
+			for _, n := range grid {
+				cases = append(cases, c19GridCase{Profile: p.name, N: n, Op: "build"})
+				for _, s := range grid {
+					if s < n {
+						cases = append(cases, c19GridCase{Profile: p.name, N: n, Split: s, Op: "build"})
+					}
+				}
+				for _, m := range append([]int{0}, grid...) {
+					if m < n {
+						cases = append(cases, c19GridCase{Profile: p.name, N: n, Op: "pop", Keep: m})
+					}
+				}
+				// tails and limits are derived from the element positions
+				tails := map[uint64]bool{p.elem(0).id: true, p.elem(n-1).id + 1: true}
+				for _, c := range []int{b1, b2} {
+					if c <= n {
+						mx := p.elem(c - 1).id
+						tails[mx-1], tails[mx], tails[mx+1] = true, true, true
+					}
+				}
+				var ts []uint64
+				for t := range tails {
+					ts = append(ts, t)
+				}
+				sort.Slice(ts, func(i, j int) bool { return ts[i] < ts[j] })
+				for _, t := range ts {
+					cases = append(cases, c19GridCase{Profile: p.name, N: n, Op: "prune", Tail: t})
+				}
+				for _, m := range grid {
+					if m < n {
+						cases = append(cases, c19GridCase{Profile: p.name, N: n, Op: "wlimit", Limit: p.elem(m - 1).id})
+						if p.gap > 1 {
+							cases = append(cases, c19GridCase{Profile: p.name, N: n, Op: "wlimit", Limit: p.elem(m-1).id + 1})
+						}
+						cases = append(cases, c19GridCase{Profile: p.name, N: n, Op: "dlimit", Limit: p.elem(m - 1).id})
+					}
+				}
+			}
+			r.Parallel(len(cases), func(i int) {
+				c := cases[i]
+				r.Case(c, func() error { return c19RunGrid(r, p, c, grid) })
+				r.DistinctHash(mc.Hash64(fmt.Sprint(c)))
+				if i%401 == 0 {
+					r.Sample(c)
+				}
+			})
 		}
-		depth := mc.Pick(r, 4, 6)
-		c19Explore(r, c19CfgTn2(), depth, 1, 1, true)
-		c19Explore(r, c19CfgTn34(), depth, 1, 1, true)
 	})
+}
+
+func c19RunGrid(r *mc.R, p *c19Profile, c c19GridCase, grid []int) error {
+	cfg := p.cfg
+	db, model, err := c19Build(p, c.N, c.Split)
+	if err != nil {
+		return err
+	}
+	check := func(stage string, m []c19Elem) ([]c19Block, error) {
+		marks := append(append([]int{}, grid...), len(m))
+		blocks, err := c19Check(cfg, db, m, false, c19SeekAt(m, marks), marks...)
+		if err != nil {
+			return nil, fmt.Errorf("%s: %v", stage, c19Short(err))
+		}
+		return blocks, nil
+	}
+	before, err := check("after build", model)
+	if err != nil {
+		return err
+	}
+	next := func(i int) c19Op {
+		// the following two elements after position i
+		op := c19Op{Kind: "W", Limit: c19Last(model)}
+		for k := 0; k < 2; k++ {
+			e := p.elem(i + k)
+			op.IDs = append(op.IDs, e.id)
+			if p.ext != nil {
+				op.Exts = append(op.Exts, e.ext)
+			}
+		}
+		return op
+	}
+	switch c.Op {
+	case "build":
+		r.Outcome(fmt.Sprintf("build:%d-blocks", len(before)))
+	case "pop":
+		if model, err = c19Apply(cfg, db, model, c19Op{Kind: "D", Limit: c19Last(model), Pops: c.N - c.Keep}, true); err != nil {
+			return err
+		}
+		after, err := check("after pop", model)
+		if err != nil {
+			return err
+		}
+		r.Outcome(fmt.Sprintf("pop:%d->%d-blocks", len(before), len(after)))
+		if model, err = c19Apply(cfg, db, model, next(c.Keep), true); err != nil {
+			return err
+		}
+		if _, err := check("after re-append", model); err != nil {
+			return err
+		}
+	case "prune":
+		if model, err = c19Apply(cfg, db, model, c19Op{Kind: "P", Tail: c.Tail}, true); err != nil {
+			return err
+		}
+		after, err := check("after prune", model)
+		if err != nil {
+			return err
+		}
+		r.Outcome(fmt.Sprintf("prune:%d->%d-blocks", len(before), len(after)))
+		if len(model) > 0 {
+			if model, err = c19Apply(cfg, db, model, c19Op{Kind: "D", Limit: c19Last(model), Pops: 1}, true); err != nil {
+				return err
+			}
+			if _, err := check("after prune+pop", model); err != nil {
+				return err
+			}
+		}
+		if model, err = c19Apply(cfg, db, model, next(c.N), true); err != nil {
+			return err
+		}
+		if _, err := check("after prune+pop+append", model); err != nil {
+			return err
+		}
+	case "wlimit":
+		op := c19Op{Kind: "W", Limit: c.Limit, Trunc: true, IDs: []uint64{c.Limit + 1}}
+		if p.ext != nil {
+			op.Exts = [][]uint16{{1}}
+		}
+		if model, err = c19Apply(cfg, db, model, op, true); err != nil {
+			return err
+		}
+		after, err := check("after truncating writer", model)
+		if err != nil {
+			return err
+		}
+		r.Outcome(fmt.Sprintf("wlimit:%d->%d-blocks", len(before), len(after)))
+	case "dlimit":
+		if model, err = c19Apply(cfg, db, model, c19Op{Kind: "D", Limit: c.Limit, Trunc: true, Pops: 1}, true); err != nil {
+			return err
+		}
+		after, err := check("after truncating deleter", model)
+		if err != nil {
+			return err
+		}
+		r.Outcome(fmt.Sprintf("dlimit:%d->%d-blocks", len(before), len(after)))
+	default:
+		return fmt.Errorf("harness: unknown grid op %q", c.Op)
+	}
+	return nil
+}
+
+// c19Short trims the long id lists out of an error message (unscaled indexes hold thousands of ids).
+func c19Short(err error) string {
+	s := err.Error()
+	if len(s) > 600 {
+		s = s[:600] + "…"
+	}
+	return s
 }
